@@ -899,7 +899,9 @@ impl Rest {
             }
         }
         if let Some(v) = announce {
-            for w in self.limits.writers.iter_mut().filter(|w| w.src == i) {
+            // (a stage whose own stream has already ended — its source ended, possibly polls before
+            // the consumer's outermost stream reports the end — is out of reach of later limits)
+            for w in self.limits.writers.iter_mut().filter(|w| w.src == i && !w.tap.borrow().stage_ended) {
                 w.announced = Some(v);
             }
         }
